@@ -317,7 +317,7 @@ func genC04Cfg(g *simrt.Chooser, stratum string) (SnapCfg, rdbgen.GenOpts) {
 	}
 	o.MaxElems = 1 + g.Choose("maxelems", 12)
 	o.MaxElemLen = 8 << g.Choose("maxelemlen", 5) // 8..128 bytes
-	o.KeylessOneIn = 2 // entries without a key (function libraries, lua aux scripts) are entries a fault can hit too
+	o.KeylessOneIn = 2                            // entries without a key (function libraries, lua aux scripts) are entries a fault can hit too
 	o.MaxDBs = 3
 	o.UniqueAcrossDBs = c.DBM.TargetDb != -1
 	o.NoStreams = !verGE(c.TargetVersion, 5, 0)
